@@ -1,6 +1,6 @@
 (* CorrDefs/CorrARGP.v — one differential case: an action set, an argv, and what the real
    argparse.ArgumentParser (CPython, add_help=False) answered through parse_known_args and parse_args. *)
-From SPV Require Export Base.Corr Model.ArgparseM Model.ArgparseMSpec.
+From SPV Require Export Base.Corr Model.ArgparseM Model.ArgparseMSpec Model.ArgparsePos Model.ArgparsePosSpec.
 
 Definition ins := ns (stored ival).
 
@@ -18,19 +18,42 @@ Record case := mkcase {
 Definition known_eqb (a b : res (ins * list string)) : bool :=
   res_eqb (fun x y => ns_eqb ival_eqb (fst x) (fst y) && strs_eqb (snd x) (snd y)) a b.
 
+(* cases whose action set contains positionals (actions without option strings) are judged by Model/ArgparsePos.v;
+   the others by Model/ArgparseM.v AND by Model/ArgparsePos.v (which must agree) *)
+Definition has_pos (c : case) : bool := existsb is_positional c.(c_acts).
+
+(* a `*` positional that receives no token keeps its default object: an unconverted str stays a str *)
+Definition canon_st (x : stored ival) : stored ival := match x with SRaw s => SOne (VS s) | y => y end.
+Definition canon_ns (n : ins) : ins := map (fun p => (fst p, canon_st (snd p))) n.
+Definition canon_known (r : res (ins * list string)) : res (ins * list string) :=
+  match r with Ok (n, ex) => Ok (canon_ns n, ex) | Err e => Err e end.
+Definition canon_args (r : res ins) : res ins := match r with Ok n => Ok (canon_ns n) | Err e => Err e end.
+
 Definition in_scope (c : case) : bool :=
+  if has_pos c then in_model_scopeP c.(c_abbrev) c.(c_acts) c.(c_argv)
+  else
   in_model_scope c.(c_abbrev) c.(c_acts) c.(c_argv)
   && match c.(c_twin) with Some (argv', _) => in_model_scope c.(c_abbrev) c.(c_acts) argv' | None => true end.
 
+Definition model_okP (c : case) : bool :=
+  known_eqb (canon_known (iparse_knownP c.(c_abbrev) c.(c_acts) c.(c_argv))) c.(c_known)
+  && res_eqb (ns_eqb ival_eqb) (canon_args (iparse_argsP c.(c_abbrev) c.(c_acts) c.(c_argv))) c.(c_args).
+
 Definition model_ok (c : case) : bool :=
-  known_eqb (iparse_known c.(c_abbrev) c.(c_acts) c.(c_argv)) c.(c_known)
+  model_okP c &&
+  (has_pos c ||
+  (known_eqb (iparse_known c.(c_abbrev) c.(c_acts) c.(c_argv)) c.(c_known)
   && res_eqb (ns_eqb ival_eqb) (iparse_args c.(c_abbrev) c.(c_acts) c.(c_argv)) c.(c_args)
   && match c.(c_twin) with
      | Some (argv', k') => known_eqb (iparse_known c.(c_abbrev) c.(c_acts) argv') k'
-     | None => true end.
+     | None => true end)).
 
 (* the interface predicates, evaluated on the observed behaviour only *)
+Definition spec_okP (c : case) : bool :=
+  observed_okP icvt ival_eqb c.(c_abbrev) c.(c_acts) c.(c_argv) c.(c_known) c.(c_args).
+
 Definition spec_ok (c : case) : bool :=
+  if has_pos c then spec_okP c else
   observed_ok icvt ival_eqb c.(c_abbrev) c.(c_acts) c.(c_argv) c.(c_known) c.(c_args)
   && match c.(c_twin) with
      | Some (argv', k') =>
